@@ -9,6 +9,8 @@ import SuxModel.GF2.Runner
 import SuxModel.EF.Runner
 import SuxModel.Edge.Runner
 import SuxModel.Space.Runner
+import SuxModel.Atomic.Runner
+import SuxModel.Func.Runner
 /-!
 # `suxdrv <runner>` : line-protocol driver over the executable model definitions
 -/
@@ -34,7 +36,9 @@ def runners : List (String × Runner) := [
   ("gf2", Sux.GF2.runner),
   ("ef", Sux.EF.runner),
   ("edge", Sux.Edge.runner),
-  ("space", Sux.Space.runner)
+  ("space", Sux.Space.runner),
+  ("atomic", Sux.Atomic.runner),
+  ("func", Sux.Func.runner)
 ]
 
 def main (args : List String) : IO UInt32 := do
